@@ -10,7 +10,7 @@ Driver ops for C12 (Model/Errors.lean).
            | {"dir": {"kind": "valid"|"badDirective", "line": n}}     a one-line directive
            | {"include": {"line": n, "file": file}}
       K    = unbalanced | badDate | badAmount | failedAssert | unknownAccount |
-             unknownCommodity | unknownPayee
+             unknownCommodity | unknownPayee | unknownTag
     answer: ok <status> <errors> <suppressed 0|1> <records> <warnings>
       records  = `;`-joined records, each the `|`-joined context lines
                  (`In file included from "F", line N:` … `While parsing file "F", line N:`)
@@ -40,6 +40,7 @@ def kindOf? : String → Option Kind
   | "unknownAccount" => some .unknownAccount
   | "unknownCommodity" => some .unknownCommodity
   | "unknownPayee" => some .unknownPayee
+  | "unknownTag" => some .unknownTag
   | "badDirective" => some .badDirective
   | _ => none
 
